@@ -432,12 +432,20 @@ def execute(case, ctx, d, monitor_closure=True, partial_on_generic=False):  # no
             kw["dest_index"] = index
         if not staging_mode:
             kw["cache_odb"] = None
-        if case.get("vanish"):
-            kw["validate_status"] = vanish_hook
+        def status_hook(status):
+            # the only channel through which transfer() reports ids missing from BOTH sides
+            o.status_calls += 1
+            o.status_missing = (o.status_missing or set()) | {h.value for h in status.missing}
+            if case.get("vanish"):
+                vanish_hook(status)
+
+        kw["validate_status"] = status_hook
         return transfer(src, dst, set(req), **kw)
 
     o.result = None
     o.raised = None
+    o.status_calls = 0
+    o.status_missing = None  # ids handed to validate_status as missing (None: hook not under harness control)
     o.push_counts = []
     o.via_push = via_push
     # a store class that trusts names keeps a half-written object for good (nothing in dvc-data claims to heal
@@ -456,6 +464,8 @@ def execute(case, ctx, d, monitor_closure=True, partial_on_generic=False):  # no
                 raise
             o.raised = exc
     o.inj = inj
+    # what the judged (first) call reported through validate_status; the fault-free retry reports separately
+    o.first_status_calls, o.first_status_missing = o.status_calls, o.status_missing
     _, o.dst_after = ref.audit_local_store(dst_root)
     o.src_after = None if staging_mode else ref.audit_local_store(src_root)[1]
     o.index_after = set(index) if index is not None else None
